@@ -66,6 +66,9 @@ pub struct Enc<'a> {
     pub quirks: Quirks,
     /// called at every sequence position: true = use the unknown-length form
     pub unknown_form: Option<&'a mut dyn FnMut() -> bool>,
+    /// called for every deduplicated string: true = write it in full even if it is already known (a freedom of the
+    /// format that the Scala writer uses; this library's writer never does)
+    pub dedup_full: Option<&'a mut dyn FnMut() -> bool>,
 }
 
 impl<'a> Enc<'a> {
@@ -76,6 +79,7 @@ impl<'a> Enc<'a> {
             last_id: 0,
             quirks: Quirks::default(),
             unknown_form: None,
+            dedup_full: None,
         }
     }
 
@@ -107,7 +111,14 @@ impl<'a> Enc<'a> {
     }
 
     pub fn dedup_string(&mut self, s: &str) -> Result<(), EncErr> {
+        let force_full = match self.dedup_full.as_mut() {
+            Some(f) => f(),
+            None => false,
+        };
         if let Some(id) = self.strings.get(s) {
+            if force_full {
+                return self.plain_string(s);
+            }
             let id = *id;
             self.vi(-id);
             Ok(())
@@ -168,6 +179,13 @@ impl<'a> Enc<'a> {
                 let t = resolve(n);
                 self.encode(&t, v)
             }
+            Ty::VarU32 => match v {
+                Val::U(x) => {
+                    self.vu(*x as u32);
+                    Ok(())
+                }
+                _ => Self::shape(ty, v),
+            },
             Ty::U8 => self.uint(v, ty, 1),
             Ty::U16 => self.uint(v, ty, 2),
             Ty::U32 => self.uint(v, ty, 4),
